@@ -56,6 +56,10 @@ impl vstd::std_specs::convert::FromSpecImpl<IggyTimestamp> for u64 {
 impl IggyTimestamp {
     #[verifier::external_body]
     pub fn now() -> (r: IggyTimestamp) { unimplemented!() }        // arbitrary (A-clock)
+    // the other accessors of the real type (sdk/src/utils/timestamp.rs), so that code using them stays within the stand-in:
+    // the value is microseconds since the epoch
+    pub fn as_micros(&self) -> (r: u64) ensures r == self.0, { self.0 }
+    pub fn to_secs(&self) -> (r: u64) ensures r == self.0 / 1_000_000, { self.0 / 1_000_000 }
 }
 
 // --- checksum: crc32fast::hash, an uninterpreted function of the bytes (A-dep(crc32)) ------------------------------
